@@ -126,7 +126,6 @@ var errInjected = errors.New("injected rpc failure")
 var errUnknownScanner = errors.New("UnknownScannerException")
 var errTooMany = errors.New("too many requests")
 
-
 func (c *scanCase) regBounds(i int) (start, stop []byte) {
 	if i > 0 {
 		start = c.splits[i-1]
@@ -170,6 +169,14 @@ func (f *fakeSrv) SendRPC(call hrpc.Call) (proto.Message, error) {
 	scan, ok := call.(*hrpc.Scan)
 	if !ok {
 		return nil, errors.New("fake: not a scan")
+	}
+	// like the real client: a request whose own context has ended is not sent at all (QueueRPC
+	// drops it) and the caller gets the context error
+	if err := call.Context().Err(); err != nil {
+		f.mu.Lock()
+		f.trace = append(f.trace, "D/-/-/-/0/0")
+		f.mu.Unlock()
+		return nil, err
 	}
 	f.mu.Lock()
 	defer f.mu.Unlock()
